@@ -81,7 +81,7 @@ Definition op_eqb (a b : op) : bool :=
   match a, b with
   | OCustom x, OCustom y => custom_eqb x y
   | OExt x, OExt y => opdef_eqb (x_def x) (x_def y) && ft_eqb (x_sig x) (x_sig y) &&
-                      list_eqb tyarg_eqb (x_args x) (x_args y)
+                      list_eqb tyarg_eqb (x_args x) (x_args y) && N.eqb (x_descr x) (x_descr y)
   | OOther k, OOther k' => N.eqb k k'
   | _, _ => false
   end.
@@ -237,11 +237,13 @@ Definition rft_b (reg : registry) (f f' : functype) : bool :=
   list_eqb N.eqb (ft_reqs f) (ft_reqs f').
 
 (* operations: an opaque operation with a definition becomes that definition applied to the related
-   signature and arguments; every other operation is left as it is *)
+   signature and arguments, carrying the description it was loaded with or its definition's ("may be
+   replaced": both are allowed, no third string is); every other operation is left as it is *)
 Inductive ROp (reg : registry) : op -> op -> Prop :=
-| ROpDef c d s a :
+| ROpDef c d s a ds :
     defines_op reg (c_ext c) (c_name c) d -> RFt reg (c_sig c) s -> Forall2 (RArg reg) (c_args c) a ->
-    ROp reg (OCustom c) (OExt {| x_def := d; x_sig := s; x_args := a |})
+    ds = c_descr c \/ ds = od_descr d ->
+    ROp reg (OCustom c) (OExt {| x_def := d; x_sig := s; x_args := a; x_descr := ds |})
 | ROpUndef c : ~ resolvable_op reg (c_ext c) (c_name c) -> ROp reg (OCustom c) (OCustom c)
 | ROpExt x : ROp reg (OExt x) (OExt x)
 | ROpOther k : ROp reg (OOther k) (OOther k).
@@ -249,7 +251,8 @@ Definition rop_b (reg : registry) (o o' : op) : bool :=
   match o, o' with
   | OCustom c, OExt x =>
       mem opdef_eqb (x_def x) (defs_op reg (c_ext c) (c_name c)) && rft_b reg (c_sig c) (x_sig x) &&
-      list_eqb (rarg_b reg) (c_args c) (x_args x)
+      list_eqb (rarg_b reg) (c_args c) (x_args x) &&
+      (N.eqb (x_descr x) (c_descr c) || N.eqb (x_descr x) (od_descr (x_def x)))
   | OCustom c, OCustom c' => negb (resolvable_op_b reg (c_ext c) (c_name c)) && custom_eqb c c'
   | OCustom _, _ => false
   | _, _ => op_eqb o o'
